@@ -25,12 +25,15 @@ pub async fn run<F>(
 where
     F: Future<Output = Result<BuildTerminationReport>>,
 {
-    if env_state_has_not_changed_since_last_successful_execution(
-        target,
-        target_input,
-        target_output,
-    )
-    .await
+    // A target without input is always executed: no state is ever recorded for it,
+    // so a state file found for it is stale or foreign and must not lead to a skip.
+    if !target_input.is_empty()
+        && env_state_has_not_changed_since_last_successful_execution(
+            target,
+            target_input,
+            target_output,
+        )
+        .await
     {
         #[cfg(zinoma_verif)]
         crate::verif::point("incr_checked", &target.id.to_string(), &[("skip", "true".to_string())]).await;
